@@ -24,7 +24,9 @@ from nrel.hive.dispatcher.instruction_generator.instruction_generator import Ins
 from nrel.hive.reporting.handler.handler import Handler
 
 CLOCK = ("00:00:00", "00:01:00", "06:00:00", "12:00:00", "17:00:00", "23:59:00")
-STARTS = {"00:00": 0, "05:59:30": 5 * 3600 + 59 * 60 + 30, "23:30": 23 * 3600 + 30 * 60}
+# 05:59:59: every step length used here then also begins steps at hh:mm:59 -- one second before each clock time of the shift tables,
+# 23:59:59 included (the last second of a shift that ends at midnight)
+STARTS = {"00:00": 0, "05:59:59": 5 * 3600 + 59 * 60 + 59, "23:30": 23 * 3600 + 30 * 60}
 
 
 def secs(hms: str) -> int:
@@ -77,7 +79,9 @@ def _shard(shard) -> Dict[str, Any]:
         write_global_config(d)
         pairs = list(itertools.product(CLOCK, CLOCK))
         schedules = [(f"s{i}", a, b) for i, (a, b) in enumerate(pairs)]
-        vehicles = [{"id": f"h{i:02d}", "cell": S["A"], "mech": "leaf_50", "soc": 0.9, "schedule_id": f"s{i}", "home_base_id": "hb"} for i in range(len(pairs))]
+        # the drivers live 2 km away (a home base of their own on F1, each with a plug -- drivers sharing a home base lose access to it): going off shift they drive home for several 60 s steps, so a short
+        # break between two shifts ends while they are still under way
+        vehicles = [{"id": f"h{i:02d}", "cell": S["A"], "mech": "leaf_50", "soc": 0.9, "schedule_id": f"s{i}", "home_base_id": f"hf{i:02d}"} for i in range(len(pairs))]
         # a second driver per schedule whose vehicle starts with an empty battery: it is out of service from the first step on, and its
         # driver comes on and goes off shift all the same
         vehicles += [{"id": f"e{i:02d}", "cell": S["N2"], "mech": "leaf_50", "soc": 0.0, "schedule_id": f"s{i}", "home_base_id": "hb"} for i in range(len(pairs))]
@@ -90,8 +94,8 @@ def _shard(shard) -> Dict[str, Any]:
         requests = [(f"r{k}", S["A"], S["N2"], start + k * step + step // 2, 1) for k in range(nsteps)]
         path = write_scenario(
             d, "shifts", start=start, end=end, step=step, cancel=max(step, 60),
-            vehicles=vehicles, requests=requests, bases=[("hb", S["A"], "hbs", 100)],
-            stations=[("hbs", S["A"], "LEVEL_2", 100, False), ("s0", S["N1"], "DCFC", 10, True)],
+            vehicles=vehicles, requests=requests, bases=[("hb", S["A"], "hbs", 100)] + [(f"hf{i:02d}", S["F1"], f"hfs{i:02d}", 1) for i in range(len(pairs))],
+            stations=[("hbs", S["A"], "LEVEL_2", 100, False)] + [(f"hfs{i:02d}", S["F1"], "LEVEL_2", 1, False) for i in range(len(pairs))] + [ ("s0", S["N1"], "DCFC", 10, True)],
             schedules=schedules, dispatcher={"matching_range_km_threshold": 1, "idle_time_out_seconds": 10 * step},
         )
         dlog: list = []
@@ -117,6 +121,8 @@ def _shard(shard) -> Dict[str, Any]:
                 vid = f"{prefix}{i:02d}"
                 if prefix == "e" and rp.s.vehicles[vid].vehicle_state.__class__.__name__ == "OutOfService":
                     out["stranded_steps"] = out.get("stranded_steps", 0) + 1
+                if prefix == "h" and rp.s.vehicles[vid].vehicle_state.__class__.__name__ == "DispatchBase" and in_shift(secs(a), secs(b), tod):
+                    out["shift_began_on_the_way_home"] = out.get("shift_began_on_the_way_home", 0) + 1
                 want = in_shift(secs(a), secs(b), tod)
                 out["schedule_steps"] += 1
                 kind = "wrapping" if secs(a) > secs(b) else ("empty" if a == b else "normal")
@@ -205,6 +211,7 @@ def c20() -> int:
             "distinct_nontrivial": flips,
             "rule": f"36 shift tables (all (start, end) over {CLOCK}: normal, wrapping, empty, touching midnight) x step lengths {steps} x start times {list(STARTS)}, each driven twice: a vehicle at 90 % and one that starts empty (out of service throughout), beside autonomous vehicles whose ids sort before and after the drivers'; two days + 2 steps each; non-trivial = (schedule, step) instances in which availability flips",
             "stranded_driver_steps": sum(r.get("stranded_steps", 0) for r in res),
+            "shift_began_while_driving_home": sum(r.get("shift_began_on_the_way_home", 0) for r in res),
             "dispatcher_calls": sum(r.get("dispatch_calls", 0) for r in res),
             "dispatcher_pairs": sum(r.get("dispatch_pairs", 0) for r in res),
             "samples": [s for r in res for s in r["samples"]][:3],
